@@ -223,6 +223,9 @@ TQuiesce ==
         /\ st.outq[e] = <<>> \/ st.sink[e] # "open"
         /\ st.drops[e] = <<>>
         /\ st.rxblk[e].k = "none" \/ R.lazy
+  (* C08: nothing blocks forever -- a task that left its main loop has finished by the time the
+     system is quiescent (both tasks were polled with full grants until nothing changed)        *)
+  /\ \A e \in E : st.task[e].ph \in {"run", "done"}
   /\ UNCHANGED <<st, hm>>
 
 Next ==
